@@ -101,4 +101,10 @@ pub fn verif_fmt3<A: VDisp + ?Sized, B: VDisp + ?Sized, C: VDisp + ?Sized>(l0: &
 #[verifier::external_body]
 pub fn verif_fmt4<A: VDisp + ?Sized, B: VDisp + ?Sized, C: VDisp + ?Sized, D: VDisp + ?Sized>(l0: &str, a: &A, l1: &str, b: &B, l2: &str, c: &C, l3: &str, d: &D, l4: &str) -> (r: String)
     ensures r@ == l0@ + a.vdisp() + l1@ + b.vdisp() + l2@ + c.vdisp() + l3@ + d.vdisp() + l4@ { unimplemented!() }
+#[verifier::external_body]
+pub fn verif_fmt5<A: VDisp + ?Sized, B: VDisp + ?Sized, C: VDisp + ?Sized, D: VDisp + ?Sized, E: VDisp + ?Sized>(l0: &str, a: &A, l1: &str, b: &B, l2: &str, c: &C, l3: &str, d: &D, l4: &str, e: &E, l5: &str) -> (r: String)
+    ensures r@ == l0@ + a.vdisp() + l1@ + b.vdisp() + l2@ + c.vdisp() + l3@ + d.vdisp() + l4@ + e.vdisp() + l5@ { unimplemented!() }
+#[verifier::external_body]
+pub fn verif_fmt6<A: VDisp + ?Sized, B: VDisp + ?Sized, C: VDisp + ?Sized, D: VDisp + ?Sized, E: VDisp + ?Sized, F: VDisp + ?Sized>(l0: &str, a: &A, l1: &str, b: &B, l2: &str, c: &C, l3: &str, d: &D, l4: &str, e: &E, l5: &str, f: &F, l6: &str) -> (r: String)
+    ensures r@ == l0@ + a.vdisp() + l1@ + b.vdisp() + l2@ + c.vdisp() + l3@ + d.vdisp() + l4@ + e.vdisp() + l5@ + f.vdisp() + l6@ { unimplemented!() }
 
